@@ -84,6 +84,15 @@ pub fn check_object(subject: &str, o: &dyn Aml, raw: Option<&[u8]>, out: &mut Ve
     o.to_aml_bytes(&mut t);
     if &t.as_slice()[36..] != a.as_slice() {
         out.push(v("sink-diff", "generic-table sink", format!("len={} vs {}", t.len() - 36, a.len())));
+    } else {
+        // the table that received the bytes through the sink must be the table that received
+        // them through append_slice (header Length and checksum included)
+        let mut t2 = sdt::Sdt::new(*b"SINK", 36, 1, *b"OEMIDX", *b"TABLEID0", 1);
+        t2.append_slice(&a);
+        if t.as_slice() != t2.as_slice() {
+            let off = t.as_slice().iter().zip(t2.as_slice().iter()).position(|(x, y)| x != y).unwrap_or(0);
+            out.push(v("sink-diff", "generic-table sink: header differs from append_slice", format!("offset={} len={}", off, t.len())));
+        }
     }
     let mut pb = aml::PackageBuilder::new();
     pb.add_element(o);
